@@ -75,6 +75,11 @@ type evDriven struct {
 	parked         chan struct{}                    // a request was built and waits in the transport
 	verdict        chan *raft.AppendEntriesResponse // the follower's answer, or nil: the call fails
 	done           chan struct{}                    // replicateTo returned
+	// component 104: the call may turn to sendLatestSnapshot
+	snapsOK  bool
+	sreq     *raft.InstallSnapshotRequest
+	sdata    []byte
+	sverdict chan *raft.InstallSnapshotResponse
 }
 
 func goid() uint64 {
@@ -123,6 +128,7 @@ func (t *evTrans) AppendEntries(id raft.ServerID, target raft.ServerAddress, arg
 	cp := *args
 	cp.Entries = append([]*raft.Log(nil), args.Entries...)
 	d.req = &cp
+	d.sreq = nil
 	d.parked <- struct{}{}
 	v := <-d.verdict
 	if v == nil {
@@ -132,7 +138,28 @@ func (t *evTrans) AppendEntries(id raft.ServerID, target raft.ServerAddress, arg
 	return nil
 }
 func (t *evTrans) InstallSnapshot(id raft.ServerID, target raft.ServerAddress, args *raft.InstallSnapshotRequest, resp *raft.InstallSnapshotResponse, data io.Reader) error {
-	return errEv
+	// component 104: the snapshot call of a replicateTo run by the script parks like its AppendEntries calls
+	c := t.c
+	if c.driven == nil {
+		return errEv
+	}
+	c.mu.Lock()
+	d := c.driven[goid()]
+	c.mu.Unlock()
+	if d == nil || !d.snapsOK {
+		return errEv
+	}
+	cp := *args
+	d.sreq = &cp
+	d.sdata, _ = io.ReadAll(data)
+	d.req = nil
+	d.parked <- struct{}{}
+	v := <-d.sverdict
+	if v == nil {
+		return errEv
+	}
+	*resp = *v
+	return nil
 }
 func (t *evTrans) TimeoutNow(id raft.ServerID, target raft.ServerAddress, args *raft.TimeoutNowRequest, resp *raft.TimeoutNowResponse) error {
 	return errEv
@@ -185,6 +212,10 @@ func (k *evCall) cancel() {
 
 // run an RPC at a server through its consumer channel
 func (c *evCluster) execute(to uint64, cmd interface{}) (interface{}, error) {
+	return c.executeR(to, cmd, nil)
+}
+
+func (c *evCluster) executeR(to uint64, cmd interface{}, body io.Reader) (interface{}, error) {
 	c.mu.Lock()
 	n := c.nodes[to]
 	var t *evTrans
@@ -197,7 +228,7 @@ func (c *evCluster) execute(to uint64, cmd interface{}) (interface{}, error) {
 	}
 	ch := make(chan raft.RPCResponse, 1)
 	select {
-	case t.consumer <- raft.RPC{Command: cmd, RespChan: ch}:
+	case t.consumer <- raft.RPC{Command: cmd, Reader: body, RespChan: ch}:
 	case <-time.After(2 * time.Second):
 		return nil, errEv
 	}
@@ -515,7 +546,7 @@ func c01clGen(r *rng, n int, steps int) (in []uint64, obs []uint64, leaders int)
 	c.settle()
 	in = append([]uint64{uint64(n)}, extras...)
 	emit := func(op []uint64) {
-		if !c.do(op) {
+		if c.lost || !c.do(op) {
 			return
 		}
 		in = append(in, op...)
